@@ -155,6 +155,45 @@ def build(v, new_atom, new_pair):
     return vals[0]
 
 
+def build_shared(v, new_atom, new_pair):
+    """like `build`, but equal sub-values become the *same object* (identity sharing, as a Python
+    caller gets by re-using sub-programs): exercises clvm_tree_to_lazy_node's identity memo"""
+    memo = {}
+    st = [(v, False)]
+    vals = []
+    while st:
+        x, done = st.pop()
+        if done:
+            r = vals.pop()
+            l = vals.pop()
+            k = (id(l), id(r))
+            if k not in memo:
+                memo[k] = new_pair(l, r)
+            vals.append(memo[k])
+        elif isinstance(x, tuple):
+            st.append((x, True))
+            st.append((x[1], False))
+            st.append((x[0], False))
+        else:
+            if x not in memo:
+                memo[x] = new_atom(x)
+            vals.append(memo[x])
+    return vals[0], memo  # the memo keeps every object alive
+
+
+def wire_of(v):
+    """nested value -> wire bytes (harness writer)"""
+    return view(simple_tree(v))
+
+
+def mirrored(v):
+    """trees in which a pair and its mirror image both occur, built from the same children"""
+    if not isinstance(v, tuple):
+        return [(v, v), ((v, b"x"), (b"x", v))]
+    l, r = v
+    return [((l, r), (r, l)), ((r, l), (l, r)), (v, ((r, l), l)), (((l, r), (r, l)), ((r, l), (l, r)))]
+
+
 def simple_tree(v):
     return build(v, lambda a: Simple(a, None), lambda l, r: Simple(None, (l, r)))
 
@@ -463,6 +502,8 @@ def wrappers(v, blob):
     yield "Program.wrap(CLVMTree)", lambda: Program.wrap(CLVMTree.from_bytes(blob))
     yield "LazyNode", lambda: ext.deser_legacy(blob)
     yield "Fresh", lambda: Fresh(v)
+    yield "Simple(shared)", lambda: build_shared(v, lambda a: Simple(a, None), lambda l, r: Simple(None, (l, r)))[0]
+    yield "Program.new(shared)", lambda: build_shared(v, Program.new_atom, Program.new_pair)[0]
 
 
 def oracle_c27(seed, n, tier):
@@ -471,10 +512,16 @@ def oracle_c27(seed, n, tier):
     seen = set()
     for line in lines:
         _, tid, hx = line.split(" ")
-        blob = bytes.fromhex(hx)
-        v = nested(blob)
-        npairs = blob.count(b"\xff")  # upper bound, only for the distribution
-        for name, mk in wrappers(v, blob):
+        blob0 = bytes.fromhex(hx)
+        v0 = nested(blob0)
+        variants = [(v0, blob0, hx)]
+        if len(blob0) < 400:
+            for m in mirrored(v0):
+                w = wire_of(m)
+                variants.append((m, w, w.hex()))
+        for v, blob, hx in variants:
+          npairs = blob.count(b"\xff")  # upper bound, only for the distribution
+          for name, mk in wrappers(v, blob):
             rep.evaluations += 1
             key = (name, hx)
             if key not in seen:
@@ -541,7 +588,36 @@ def oracle_c28run(seed, n, tier):
     rep.emit()
 
 
-ORACLES = {"c27": oracle_c27, "c28run": oracle_c28run}
+def oracle_c26heap(seed, n, tier):
+    """run_serialized_chia_program vs the Rust core on a program whose heap use crosses the wheel's
+    500,000,000-byte LIMIT_HEAP cap (28 doublings of a one-byte atom, 536,870,910 bytes), under every
+    single mempool flag, LIMIT_HEAP, MEMPOOL_MODE and no flag: the cap must depend on LIMIT_HEAP alone"""
+    rep = Report()
+    nil = b""
+    x = (b"\x01", b"\x01")  # (q . 1)
+    body = (b"\x01", (b"\x0e", (b"\x01", (b"\x01", nil))))  # (q . (concat 1 1))
+    for _ in range(28):
+        x = (b"\x02", (body, (x, nil)))
+    prog = wire_of((b"\x0d", (x, nil))).hex()
+    small = wire_of((b"\x0d", ((b"\x01", b"abc"), nil))).hex()
+    lines = []
+    for i, fl in enumerate([0, 0x1, 0x2, 0x10, 0x200, 0x40, 0x4, 0x4 | 0x2, 0x1 | 0x2 | 0x4 | 0x10 | 0x200]):
+        lines.append("PYRUN h%d %08x 0 %s 80" % (i, fl, prog))
+        lines.append("PYRUN s%d %08x 0 %s 80" % (i, fl, small))
+    rs = h_run(lines)
+    for line, r in zip(lines, rs):
+        rep.evaluations += 1
+        rep.nontrivial += 1
+        py = handle(line)
+        rep.hit("rust:" + " ".join(r.split(" ")[1:3])[:40])
+        if py != r:
+            rep.fail("c26_heap_limit", "request=%s rust=%s python=%s" % (line[:120] + "…", r[:200], py[:200]))
+        else:
+            rep.sample("%s -> %s" % (line[:60], r[:80]))
+    rep.emit()
+
+
+ORACLES = {"c27": oracle_c27, "c28run": oracle_c28run, "c26heap": oracle_c26heap}
 
 
 def main():
